@@ -53,7 +53,7 @@ def build_cases(ctx, rows, life):
         for s in sorted(by_status):                       # every status at least 3 times
             for r in rng.sample(by_status[s], 3):
                 picked[r["id"]] = r
-        for r in rng.sample(rows, 1200):
+        for r in rng.sample(rows, 600):
             picked[r["id"]] = r
         rows = [picked[k] for k in sorted(picked)]
     rng.shuffle(rows)
@@ -144,6 +144,9 @@ def run(ctx):
     rows, life = vlib.read_ndjson(rows_p), vlib.read_ndjson(life_p)
     ctx.extra["table_rows"] = len(rows)
     cases = build_cases(ctx, rows, life)
+    if ctx.replay:                                      # bin/check C13 --replay evidence/replays/C13-n.json : only that store
+        with open(ctx.replay) as f:
+            cases = [json.load(f)["detail"]["case"]]
     cp = ctx.path("migcases.ndjson")
     vlib.write_ndjson(cp, cases)
     # 2. replay on the real code
@@ -203,7 +206,7 @@ def run(ctx):
             ctx.evaluations += len(p["idem"]) + len(p["starts"])
             for s in p["starts"]:
                 ctx.distinct.add(("start", api, s["kind"], s["fault"], s["held"], len([l for l in s["listeners"] if l["before"]])))
-    if len(statuses) != ALL_STATUSES:
+    if len(statuses) != ALL_STATUSES and not ctx.replay:
         raise Inconclusive("only %d of %d v2 statuses were replayed" % (len(statuses), ALL_STATUSES))
     ctx.extra.update({"stores": len(cases), "records": sum(len(c["chans"]) for c in cases), "statuses": len(statuses),
                       "refused_ops": sum(len(o[a]["pre"]) for o in obs for a in ("chan", "mgr")),
